@@ -58,3 +58,20 @@ Theorem c02_write_resent_without_eof_flattening_refuted :
   exists atts, Oxia.Client.WriteModel.count_sent (Oxia.Client.WriteModel.write_path false atts) = 2.
 Proof. exact Oxia.Client.WriteProofs.write_resent_without_eof_flattening. Qed.
 Print Assumptions c02_write_resent_without_eof_flattening_refuted.
+
+(* One read over many records is one atomic observation: in the DB model (Oxia.Db) get / list / range-scan /
+   secondary-index list are functions of ONE state, so whatever writes commit while the result is streamed, the result
+   is the range in the state after a prefix of them, the same prefix for every record.  The lifetime of the Pebble
+   iterator behind a streamed read is outside the model: the leg c02scan checks exactly this statement on the real
+   LeaderController (writes awaited inside the stream callback).  The secondary-index RANGE-SCAN is excluded: the
+   implementation reads each record with a separate Get (open finding scan:index-range-scan-not-atomic). *)
+From Oxia.Db Require ScanSnapshot.
+Theorem c02_scan_is_atomic_snapshot : forall cfg st ws,
+  exists n, (n <= length ws)%nat /\
+    let seen := Oxia.Db.ScanSnapshot.apply_writes cfg st (firstn n ws) in
+    (forall a b, Oxia.Db.Read.db_range_scan st a b = Oxia.Db.Read.db_range_scan seen a b) /\
+    (forall a b, Oxia.Db.Read.db_list st a b = Oxia.Db.Read.db_list seen a b) /\
+    (forall name a b, Oxia.Db.IndexReads.secondary_list st name a b = Oxia.Db.IndexReads.secondary_list seen name a b) /\
+    (forall k c incl, Oxia.Db.Read.db_get st k c incl = Oxia.Db.Read.db_get seen k c incl).
+Proof. exact Oxia.Db.ScanSnapshot.scan_is_atomic_snapshot. Qed.
+Print Assumptions c02_scan_is_atomic_snapshot.
